@@ -416,11 +416,28 @@ func (x *Exec) call(st *State, b *ssa.BasicBlock, idx int, in *ssa.Call) bool {
 // a type-specific contract of a generic library function (json.Marshal, ...).
 func (x *Exec) variantKey(c *ssa.CallCommon) string {
 	for _, a := range c.Args {
-		switch a := a.(type) {
-		case *ssa.MakeInterface:
-			return typeRelName(x.prog, a.X.Type())
-		case *ssa.ChangeInterface:
-			return typeRelName(x.prog, a.X.Type())
+		if v := x.variantOf(a); v != "" {
+			return v
+		}
+	}
+	return ""
+}
+
+// variantOf: the static type behind an interface-typed argument: built at the call site, or handed on
+// through a parameter of an inlined helper (then it is what the helper's caller built).
+func (x *Exec) variantOf(a ssa.Value) string {
+	switch a := a.(type) {
+	case *ssa.MakeInterface:
+		return typeRelName(x.prog, a.X.Type())
+	case *ssa.ChangeInterface:
+		return typeRelName(x.prog, a.X.Type())
+	case *ssa.Parameter:
+		if x.curState != nil {
+			for i := len(x.curState.frames) - 1; i >= 1; i-- {
+				if fr := x.curState.frames[i]; fr.fn == a.Parent() && fr.paramVariant != nil {
+					return fr.paramVariant[a]
+				}
+			}
 		}
 	}
 	return ""
@@ -616,6 +633,17 @@ func (x *Exec) inline(st *State, f *ssa.Function, bindings []Val, args []Val, k 
 	}
 	if c := x.curCall; c != nil && !c.IsInvoke() && c.StaticCallee() == f && len(c.Args) == len(f.Params) {
 		x.curState = st
+		for i, p := range f.Params {
+			if isInterface(p.Type()) {
+				// evaluated with the caller's frames only (fr is not pushed yet)
+				if v := x.variantOf(c.Args[i]); v != "" {
+					if fr.paramVariant == nil {
+						fr.paramVariant = map[*ssa.Parameter]string{}
+					}
+					fr.paramVariant[p] = v
+				}
+			}
+		}
 		for i, p := range f.Params {
 			if _, isFn := p.Type().Underlying().(*types.Signature); isFn {
 				if s := x.roleSite(c.Args[i]); s != "" {
